@@ -207,6 +207,18 @@ def rule_sib(ctx):
                     is_none = leaf[0] in ('none', 'absent')
                     verdict[label] = 'None' if is_none else ('Some(reason)' if 'FullTypeFields.deprecation_reason' in TM.fields_in(leaf) and not TM.consts_in(leaf) else 'other')
                 reason_decides = 'FullTypeFields.deprecation_reason' in cond_fields
+                # `reason.map(Some)`-like plumbing: the Option of the *reason* becomes the outer Option (deprecated or not)
+                for f_, n_ in H.deep_nodes(ctx, fn, f['e'], 2, None, True):
+                    if n_['k'] in ('mcall', 'call'):
+                        rcv = n_['recv'] if n_['k'] == 'mcall' else (n_['args'][0] if n_['args'] else None)
+                        if rcv is None:
+                            continue
+                        rty = (rcv.get('ty', '') or '').replace('&mut ', '').replace('&', '').replace(' ', '')
+                        oty = (n_.get('ty', '') or '').replace(' ', '')
+                        if rty.count('Option<') == 1 and 'String' in rty and oty.count('Option<') == 2 and 'String' in oty and \
+                                not (n_['k'] == 'call' and (n_.get('callee') or {}).get('path', '').endswith('Some')):
+                            if 'FullTypeFields.deprecation_reason' in TM.fields_in(ctx.pv.eval(f_, rcv, H.sym_env(f_), 0)):
+                                reason_decides = True
                 if reason_decides:
                     obs.append(bad('SIB-3', inst, 'deprecation is not `isDeprecated == true => Some(reason)`: the reason decides whether the field is deprecated (reads %s)'
                                    % sorted(f_ for f_ in fields if 'eprecat' in f_), node.get('sp', ''), 'a field deprecated without a reason is not deprecated in the JSON rendering'))
@@ -302,16 +314,7 @@ def rule_sdl_details(ctx):
                     consts = {c for c in TM.consts_in(t) if isinstance(c, str)}
                     explicit = (('I.' + srcfield) if fr == 'json' else srcfield) in fields
                     if fr == 'sdl':
-                        # under `if let Some(schema_definition)`: explicit block only; else: the default name only
-                        in_then = any(pc[0] == 'if' and pc[2] for pc in pcs)
-                        if in_then:
-                            if not explicit or consts & {'Query', 'Mutation', 'Subscription'}:
-                                good = False
-                                why = 'with an explicit schema block the root is taken from %s / constants %s' % (sorted(f_ for f_ in fields if 'SchemaDefinition' in f_), sorted(consts))
-                        else:
-                            if consts != {dflt}:
-                                good = False
-                                why = 'without a schema block the root name is %s, expected "%s"' % (sorted(consts), dflt)
+                        pass        # decided below over all assignments, per scenario
                     else:
                         if not explicit or consts & {'Query', 'Mutation', 'Subscription'}:
                             good = False
@@ -319,6 +322,61 @@ def rule_sdl_details(ctx):
                     if 'Schema.names' not in fields:
                         good = False
                         why = why or 'root is not resolved through the names map'
+                if fr == 'sdl' and good:
+                    # which name is looked up in each situation?  (no schema block -> the conventional name; a schema block
+                    # that declares the root -> the declared name; a schema block that omits it -> no root at all)
+                    member = sdl_field.split('.')[-1]
+                    verdicts = {}
+                    for label, defs, mval, want in (('no schema block', 'NOSD', Q.NONE, dflt), ('declared in the schema block', 'SD', 'DECL', 'DECL'),
+                                                     ('schema block omits it', 'SD', Q.NONE, None)):
+                        keys = []
+
+                        class RootQ(Q.QEval):
+                            def pat_matches(self_, pat, v):
+                                if pat[0] == 'ctor' and pat[1].endswith('Definition::SchemaDefinition'):
+                                    return v == 'SD'
+                                if pat[0] == 'ctor' and pat[1].endswith('TypeId::Object'):
+                                    return isinstance(v, tuple) and v and v[0] == 'LOOKUP'
+                                return Q.QEval.pat_matches(self_, pat, v)
+
+                        def atoms(x, defs=defs, mval=mval, keys=keys):
+                            if x[0] == 'field' and x[2].endswith('::Document') and x[3] == 'definitions':
+                                return defs
+                            if x[0] == 'cproj' and x[2].endswith('Definition::SchemaDefinition'):
+                                return 'SDVAL' if defs == 'SD' else Q.NONE
+                            if x[0] == 'field' and x[2].endswith('::SchemaDefinition'):
+                                if x[1] == ('none',) or defs != 'SD':
+                                    return Q.NONE
+                                return mval if x[3] == member else 'OTHER-MEMBER'
+                            if x[0] == 'sel' and x[1] == 'get' and x[2][0] == 'field' and x[2][3] == 'names':
+                                kv = qe.ev(x[3])
+                                if kv is Q.NONE:
+                                    return Q.NONE
+                                keys.append(kv)
+                                return ('LOOKUP', kv)
+                            return None
+                        qe = RootQ(ctx.pv, [], atoms)
+                        results = []
+                        try:
+                            for a in assigns:
+                                t = ctx.pv.guarded_local(f, a, ctx.pv.eval(f, a['r'], H.sym_env(f), 0), H.sym_env(f), 0)
+                                del keys[:]
+                                leaf = Q.select_leaf(qe, t)
+                                if leaf[0] == 'absent':
+                                    continue
+                                results.append(keys[-1] if (keys and leaf[0] not in ('none',)) else None)
+                        except Q.Undecided as ex:
+                            verdicts[label] = 'undecided (%s)' % ex
+                            continue
+                        got = results[-1] if results else '<never assigned>'
+                        verdicts[label] = 'ok' if got == want else 'looks up %r, expected %r' % (got, want)
+                    if any(v.startswith('undecided') for v in verdicts.values()):
+                        obs.append(undecided('ROOTS-AGREE', inst, 'cannot evaluate the root selection: %s' % verdicts, assigns[0].get('sp', '')))
+                        continue
+                    wrong = {k: v for k, v in verdicts.items() if v != 'ok'}
+                    if wrong:
+                        good = False
+                        why = '; '.join('%s: %s' % kv for kv in sorted(wrong.items()))
                 if good:
                     obs.append(ok('ROOTS-AGREE', inst, 'explicit root when given%s, resolved through the names map' % ('; default name `%s` otherwise' % dflt if fr == 'sdl' else ''), assigns[0].get('sp', '')))
                 else:
@@ -438,6 +496,7 @@ def rule_json_shapes(ctx):
 def rule_types3(ctx):
     """both qualifier extractors: list -> List, non-null -> Required, pushed outer-to-inner (before descending)"""
     obs = []
+    extractor_fns = set()
     for fr, name, want in (('sdl', 'graphql_client_codegen::schema::resolve_field_type', {'ListType': 'List', 'NonNullType': 'Required'}),
                            ('json', JSON_MOD + '::from_json_type_inner', {'LIST': 'List', 'NON_NULL': 'Required'})):
         fn = ctx.fn('codegen', name)
@@ -458,15 +517,38 @@ def rule_types3(ctx):
             for k in want:
                 if ('::' + k) in ps:
                     key = k
-            pushes = [n for n in walk(a['body']) if n['k'] == 'mcall' and n['method'] in ('push', 'insert', 'push_front')]
             if key:
                 vals = set()
-                for p_ in pushes:
-                    for s in walk(p_['args'][-1]):
-                        if s['k'] == 'path' and 'GraphqlTypeQualifier::' in s['res'].get('path', ''):
-                            vals.add(s['res']['path'].split('::')[-1])
-                    if p_['method'] != 'push':
-                        vals.add('<not-appended>')
+                base_conds = len(P.path_conds(fn, a['body']))
+
+                def quals_of(e_):
+                    return {s_['res']['path'].split('::')[-1] for s_ in walk(e_) if s_['k'] == 'path' and 'GraphqlTypeQualifier::' in s_['res'].get('path', '')}
+
+                def scan_pushes(f_, body_, base_, argmap, depth):
+                    """pushes onto a Vec<GraphqlTypeQualifier> in body_ (and in workspace helpers it calls); each must be unconditional"""
+                    for n_ in walk(body_):
+                        if n_['k'] == 'mcall' and n_['method'] in ('push', 'insert', 'push_front', 'extend') and 'GraphqlTypeQualifier' in (n_['recv'].get('ty', '') + n_['recv'].get('aty', '')):
+                            arg = n_['args'][-1]
+                            got = quals_of(arg)
+                            if not got and arg.get('k') == 'path' and arg['res'].get('r') == 'local':
+                                got = argmap.get(arg['res']['hid'], set())
+                            vals.update(got or {'<computed>'})
+                            if n_['method'] != 'push':
+                                vals.add('<not-appended>')
+                            if len(P.path_conds(f_, n_)) > base_:
+                                vals.add('<conditional>')
+                        elif n_['k'] == 'call' and depth > 0:
+                            for lf in ctx.pv.local_fns(n_.get('callee')):
+                                if lf.from_macro or not any('GraphqlTypeQualifier' in (a_.get('ty', '') + a_.get('aty', '')) for a_ in n_['args']):
+                                    continue
+                                amap = {}
+                                for i_, prm in enumerate(lf.params):
+                                    if prm.get('k') == 'bind' and i_ < len(n_['args']):
+                                        amap[prm['hid']] = quals_of(n_['args'][i_])
+                                if len(P.path_conds(f_, n_)) > base_:
+                                    vals.add('<conditional>')
+                                scan_pushes(lf, lf.body, 0, amap, depth - 1)
+                scan_pushes(fn, a['body'], base_conds, {}, 2)
                 # push must come before the descent (assignment of the cursor)
                 order_ok = True
                 stmts = a['body'].get('stmts', []) if a['body'].get('k') == 'block' else []
@@ -487,6 +569,8 @@ def rule_types3(ctx):
         else:
             obs.append(bad('TYPES-3', fr + '/table', 'qualifier table is %s (terminal on named type: %s)' % ({k: sorted(v) for k, v in table.items()}, terminal), m.get('sp', ''),
                            'list / non-null nesting is read wrongly from this schema format'))
+        # a stored qualifier list is written once, by appending in its extractor, and never edited afterwards
+        extractor_fns.add(fn.key)
         # name lookup
         if fr == 'sdl':
             lk = [n for n in walk(fn.body) if n['k'] in ('call', 'mcall') and any(p.endswith('Schema::find_type_id') for p in H.callee_paths(n))]
@@ -496,6 +580,36 @@ def rule_types3(ctx):
             obs.append(ok('TYPES-3', fr + '/named', 'named type resolved through the names map', lk[0].get('sp', '')))
         else:
             obs.append(bad('TYPES-3', fr + '/named', 'named type is not looked up in the names map', fn.loc, 'wrong type id'))
+    # no other code of the schema layer edits a qualifier list (dedup / retain / remove / insert / reverse / assignment ...)
+    cgr = callgraph(ctx)
+    helpers = set()
+    for k_ in extractor_fns:
+        helpers |= cgr.reachable([k_])
+    n_scanned = 0
+    for sf in ctx.crate('codegen').all_fns():
+        np_ = norm_path(sf.path)
+        if sf.from_macro or not np_.startswith('graphql_client_codegen::schema'):
+            continue
+        n_scanned += 1
+        edits = []
+        for n_ in walk(sf.body):
+            if n_['k'] == 'mcall':
+                rt = n_['recv'].get('ty', '')
+                at = n_['recv'].get('aty', '')
+                if 'GraphqlTypeQualifier' in rt and 'Iter<' not in rt and 'Option<' not in rt and at.startswith('&mut'):
+                    if n_['method'] == 'push' and sf.key in helpers:
+                        continue
+                    edits.append(n_['method'])
+            elif n_['k'] == 'assign' and 'GraphqlTypeQualifier' in (n_['l'].get('ty', '')):
+                edits.append('=')
+        inst = 'edited/' + short(sf.path)
+        if edits:
+            obs.append(bad('TYPES-3', inst, 'a qualifier list is edited after extraction (%s)' % ', '.join(sorted(set(edits))), sf.loc,
+                           'the stored list / non-null nesting differs from the schema\'s type expression for some nestings'))
+    if n_scanned >= 10:
+        obs.append(ok('TYPES-3', 'edited/none', 'no schema-layer function edits a qualifier list outside the two extractors (%d fns scanned)' % n_scanned, ''))
+    else:
+        obs.append(bad('TYPES-3', 'edited/floor', 'anchor-missing: only %d schema-layer functions found' % n_scanned))
     return obs
 
 
